@@ -47,12 +47,16 @@ class PBKDF2SHAHandler(PasswordHasher):
         secret = as_bytes(secret)
         salt = salt or self._salt()
         rounds = rounds or self._rounds
-        hash = pbkdf2_hmac(
-            self.HASH_NAME,
-            password=secret,
-            salt=salt,
-            iterations=rounds,
-        )
+        try:
+            hash = pbkdf2_hmac(
+                self.HASH_NAME,
+                password=secret,
+                salt=salt,
+                iterations=rounds,
+            )
+        except OverflowError as err:
+            # hashlib takes the cost as a C int/long: a larger value (e.g. from a stored hash) is an invalid cost, not an internal error
+            raise ValueError(f"rounds too large: {err}") from err
         return self.HASH_INFO_CLS(
             rounds=rounds,
             hash=ab64_encode(hash).decode("ascii"),
